@@ -386,11 +386,10 @@ structure NdState where
 def getstate (a : Arr) : NdState := ⟨a.shape, a.kind, a.data⟩
 
 /-- `ndarray.__setstate__` on a freshly made array (`np.ndarray.__new__(ndarray, (0,), 'b')` for
-the subclass route, `np.array([])` for the wrapper route): everything is overwritten -/
-def setstate (_fresh : Arr) (st : NdState) : Arr := ⟨st.shape, st.kind, st.raw⟩
-
-def emptyB : Arr := ⟨[0], .bool, []⟩      -- np.ndarray.__new__(np.ndarray, (0,), 'b')
-def emptyF : Arr := ⟨[0], .real, []⟩      -- np.array([])
+the subclass route, `np.array([])` for the wrapper route): everything is overwritten, so the fresh array
+does not appear.  Memory order (the `is_fortran` flag) is not modelled: the model's arrays have no layout;
+the harness's round-trip oracle covers it on the real code. -/
+def setstate (st : NdState) : Arr := ⟨st.shape, st.kind, st.raw⟩
 
 /-- NumPy's `same_kind` rule for writing a ufunc result of class `r` into an array of class `x` -/
 def canCastInto (r x : Kind) : Bool :=
@@ -691,8 +690,6 @@ structure Policy where
   reduce : Tag → Arr → Tag
   /-- result of a NumPy *function* that does not preserve subclasses (`np.where`) -/
   func : List Tag → Arr → Tag
-  /-- the freshly made array `__setstate__` overwrites when unpickling -/
-  fresh : Arr
 
 /-- bare NumPy: 0-d results become scalars -/
 def bareTag (a : Arr) : Tag := if a.shape.isEmpty then .scalar else .plain
@@ -703,7 +700,6 @@ def oldPolicy : Policy where
   ufunc ts a := match leftGrid ts with | some g => .field g | none => bareTag a
   reduce t a := match t with | .field g => .field g | _ => bareTag a
   func _ _ := .plain          -- subok is not honoured: a base-class ndarray comes back
-  fresh := Prim.emptyB        -- `_field_reconstruct`: np.ndarray.__new__(np.ndarray, (0,), 'b')
 
 /-- Wrapper route: unwrap, call the kernel, `if isinstance(result, np.ndarray): Field(result,
 self.grid) else result` — a 0-d result is a NumPy scalar and stays bare. -/
@@ -715,7 +711,6 @@ def newPolicy : Policy where
     | .field g => if a.shape.isEmpty then .scalar else .field g
     | _ => bareTag a
   func ts _ := match leftGrid ts with | some g => .field g | none => .plain   -- `__array_function__`
-  fresh := Prim.emptyF        -- `NewStyleField.__setstate__`: self.data = np.array([])
 
 /-- `x[i]`: both `ndarray.__getitem__` (then `__array_finalize__`) and
 `NewStyleField.__getitem__` (`np.isscalar(res)`) keep the tag unless NumPy returned a scalar -/
@@ -760,7 +755,10 @@ def fnTag (P : Policy) (c : TagClass) (ts : List Tag) (a : Arr) : Tag :=
   match c with
   | .ufunc => P.ufunc ts a
   | .reduce => P.reduce (ts.headD .plain) a
-  | .keep => match ts.headD .plain with | .field g => .field g | _ => bareTag a
+  | .keep => match ts.headD .plain with
+    | .field g => .field g
+    | .plain => .plain          -- a method of an ndarray returns an ndarray, 0-d included (`np.where(s, s, s).astype(bool)`)
+    | .scalar => bareTag a
   | .scalarIf0d => match ts.headD .plain with
     | .field g => if a.shape.isEmpty then .scalar else .field g
     | _ => bareTag a
@@ -826,7 +824,7 @@ def eval (P : Policy) (gs : Grids) (look : Nat → Except Err Val) : Expr → Ex
     match eval P gs look e with
     | .error err => .error err
     | .ok v =>
-      .ok (Prim.setstate P.fresh (Prim.getstate v.1), v.2)
+      .ok (Prim.setstate (Prim.getstate v.1), v.2)
   | .app1 f e =>
     match eval P gs look e with
     | .error err => .error err
@@ -884,9 +882,17 @@ def bind (vars : List (Nat × α)) (x : Nat) (r : α) : List (Nat × α) :=
 
 def evalO (gs : Grids) (s : OState) (e : Expr) : Except Err Val := eval oldPolicy gs s.look e
 
+/-- a bare variable on the right-hand side: Python's `x = y` binds a second name to the same object — that
+is the statement `.alias x y`, not an assignment of a new object.  `.assign x (.var y)` is therefore outside
+the model (`.unsupported`, which matches no behaviour of the running code). -/
+def Expr.isVar : Expr → Bool
+  | .var _ => true
+  | _ => false
+
 /-- one statement; the result names the variable to observe -/
 def stepO (gs : Grids) (s : OState) : Stmt → Except Err OState
   | .assign x e =>
+    if e.isVar then .error .unsupported else
     (evalO gs s e).map fun v => { vars := bind s.vars x s.cells.length, cells := s.cells ++ [v] }
   | .alias h x =>
     match s.vars.lookup x with
@@ -930,6 +936,7 @@ def iopTagN (tx te : Tag) : Tag :=
 
 def stepN (gs : Grids) (s : NState) : Stmt → Except Err NState
   | .assign x e =>
+    if e.isVar then .error .unsupported else
     (evalN gs s e).map fun v => { vars := bind s.vars x (s.bufs.length, v.2), bufs := s.bufs ++ [v.1] }
   | .alias h x =>
     match s.vars.lookup x with
@@ -995,5 +1002,55 @@ def obsData (o : Obs) : Except Err (Nat × Arr) := o.map fun (x, v) => (x, v.1)
 
 def dumpData (d : List (Nat × Except Err Val)) : List (Nat × Except Err Arr) :=
   d.map fun (x, r) => (x, r.map (·.1))
+
+/-! ## A decidable side condition for `shaped` (run by the driver: `agree=`) -/
+
+/-- both results are the same kind of object (same tag), or the same exception -/
+def sameTagB : Except Err Val → Except Err Val → Bool
+  | .ok v, .ok w => v.2 == w.2
+  | .error e, .error f => e == f
+  | _, _ => false
+
+/-- at every `shaped` node the operand is the same kind of object under both policies -/
+def shapedAgreeB (P Q : Policy) (gs : Grids) (lo ln : Nat → Except Err Val) : Expr → Bool
+  | .var _ | .lit _ | .scal _ _ | .field _ _ => true
+  | .bin _ l r => shapedAgreeB P Q gs lo ln l && shapedAgreeB P Q gs lo ln r
+  | .un _ e | .red _ _ e | .idx _ e | .reshape _ e | .ravel e | .copy e | .pickle e => shapedAgreeB P Q gs lo ln e
+  | .mask e m => shapedAgreeB P Q gs lo ln e && shapedAgreeB P Q gs lo ln m
+  | .shaped e => shapedAgreeB P Q gs lo ln e && sameTagB (eval P gs lo e) (eval Q gs ln e)
+  | .app1 _ e => shapedAgreeB P Q gs lo ln e
+  | .app2 _ a b => shapedAgreeB P Q gs lo ln a && shapedAgreeB P Q gs lo ln b
+  | .app3 _ a b c => shapedAgreeB P Q gs lo ln a && shapedAgreeB P Q gs lo ln b && shapedAgreeB P Q gs lo ln c
+
+def stmtAgreeB (gs : Grids) (so : OState) (sn : NState) : Stmt → Bool
+  | .assign _ e => shapedAgreeB oldPolicy newPolicy gs so.look sn.look e
+  | .alias _ _ => true
+  | .update _ _ args => args.all fun e => shapedAgreeB oldPolicy newPolicy gs so.look sn.look e
+
+/-- the check along the run of both routes (it stops where either route raises) -/
+def progAgreeB (gs : Grids) : OState → NState → List Stmt → Bool
+  | _, _, [] => true
+  | so, sn, st :: rest =>
+    stmtAgreeB gs so sn st &&
+      match stepO gs so st, stepN gs sn st with
+      | .ok so', .ok sn' => progAgreeB gs so' sn' rest
+      | _, _ => true
+
+/-- `agree? gs p`: no `shaped` of the program is applied to an object the two routes tag differently -/
+def agree? (gs : Grids) (p : List Stmt) : Bool := progAgreeB gs {} {} p
+
+/-- index of the first statement at which the check fails (`none`: it passes); reported by the driver next
+to `agree?` so that the harness can compare it with where the running styles first hand different kinds
+of object to `.shaped` -/
+def progDisagreeAt (gs : Grids) : OState → NState → List Stmt → Nat → Option Nat
+  | _, _, [], _ => none
+  | so, sn, st :: rest, i =>
+    if stmtAgreeB gs so sn st then
+      match stepO gs so st, stepN gs sn st with
+      | .ok so', .ok sn' => progDisagreeAt gs so' sn' rest (i + 1)
+      | _, _ => none
+    else some i
+
+def disagreeAt (gs : Grids) (p : List Stmt) : Option Nat := progDisagreeAt gs {} {} p 0
 
 end HcipyVerif.FieldProg
